@@ -98,9 +98,75 @@ func (c *Case) describe() string {
 			c.Terminal, c.Chain.Before, c.Chain.Gzip.Level, c.Chain.Gzip.MinSize, c.Chain.Gzip.Types, c.Chain.Gzip.Style, c.Chain.After, c.AcceptEncoding,
 			c.Prog.Status, c.Prog.ContentType, c.Prog.Body.Encoding, c.Prog.Body.Len, c.Prog.Body.Compressible, c.Prog.Parts, what)
 	}
-	return fmt.Sprintf("terminal=%s chain before=%v [gzip level=%d min_size=%d content_types=%q (%s)] after=%v\nrequest GET / Accept-Encoding=%q\nbackend: status=%d (0 = implicit WriteHeader) Content-Type=%q Content-Encoding=%q declares Content-Length=%v framing=%s body=%d bytes (compressible=%v) in writes %v",
+	return fmt.Sprintf("terminal=%s chain before=%v [gzip level=%d min_size=%d content_types=%q (%s)] after=%v\nrequest GET / Accept-Encoding=%q\nbackend: status=%d (0 = implicit WriteHeader) Content-Type=%q Content-Encoding=%q declares Content-Length=%v framing=%s body=%d bytes (compressible=%v) in writes %s%s",
 		c.Terminal, c.Chain.Before, c.Chain.Gzip.Level, c.Chain.Gzip.MinSize, c.Chain.Gzip.Types, c.Chain.Gzip.Style, c.Chain.After, c.AcceptEncoding,
-		c.Prog.Status, c.Prog.ContentType, c.Prog.Body.Encoding, c.declaresCL(), c.Framing, c.Prog.Body.Len, c.Prog.Body.Compressible, c.Prog.Parts)
+		c.Prog.Status, c.Prog.ContentType, c.Prog.Body.Encoding, c.declaresCL(), c.Framing, c.Prog.Body.Len, c.Prog.Body.Compressible, c.describeWrites(), c.describeFlushes())
+}
+
+func (c *Case) describeWrites() string {
+	if c.Prog.WriteSize > 0 {
+		return fmt.Sprintf("of %d bytes each (%d writes)", c.Prog.WriteSize, len(c.Prog.writes(c.Prog.Body.Len)))
+	}
+	return fmt.Sprint(c.Prog.Parts)
+}
+
+// describeFlushes says when the response is flushed on its way into the gzip plugin.
+func (c *Case) describeFlushes() string {
+	if c.Terminal != "stub" {
+		if !c.bodiless() && (c.Framing == "chunked" || c.Framing == "close") {
+			return "; length unknown to the reverse proxy, which therefore flushes after every write of its copy loop"
+		}
+		return ""
+	}
+	fp := c.Prog.flushPoints(c.Prog.Body.Len)
+	switch {
+	case len(fp) == 0:
+		return "; the handler never calls Flush"
+	case len(fp) <= 8:
+		return fmt.Sprintf("; the handler calls Flush when it has written %v body bytes", fp)
+	default:
+		return fmt.Sprintf("; the handler calls Flush %d times: when it has written %v ... %v body bytes", len(fp), fp[:4], fp[len(fp)-2:])
+	}
+}
+
+// flushLabels classifies the flush schedule of the exchange as the gzip plugin sees it.
+func (c *Case) flushLabels() []string {
+	if c.Terminal != "stub" {
+		if !c.bodiless() && (c.Framing == "chunked" || c.Framing == "close") {
+			return []string{"flushed-by-reverse-proxy"}
+		}
+		return nil
+	}
+	n := c.Prog.Body.Len
+	fp := c.Prog.flushPoints(n)
+	if len(fp) == 0 {
+		return []string{"handler-never-flushes"}
+	}
+	labels := []string{"handler-flushes"}
+	var before, mid, atMin, outgrew bool
+	for _, at := range fp {
+		before = before || at == 0
+		mid = mid || (at > 0 && at < n)
+		// a flush at a moment when the part written so far would by itself be long enough to compress,
+		// while more of the body is still to come
+		if at >= max(c.Chain.Gzip.MinSize, 1) && at < n {
+			atMin = true
+			outgrew = outgrew || (at <= bufferCap && n > bufferCap)
+		}
+	}
+	if before {
+		labels = append(labels, "flush-before-first-write")
+	}
+	if mid {
+		labels = append(labels, "flush-mid-body")
+	}
+	if atMin {
+		labels = append(labels, "flush-at>=min_size-then-more-body")
+	}
+	if outgrew {
+		labels = append(labels, "flushed-under-cap-then-outgrew-cap")
+	}
+	return labels
 }
 
 func (c *Case) declaresCL() bool {
@@ -251,9 +317,10 @@ func (c *Case) Run(l *Labs, deadline time.Duration) Verdict {
 	} else {
 		v.Labels = append(v.Labels, "incompressible")
 	}
-	if len(c.Prog.Parts) >= 2 {
+	if len(c.Prog.Parts) >= 2 || (c.Prog.WriteSize > 0 && c.Prog.WriteSize < c.Prog.Body.Len) {
 		v.Labels = append(v.Labels, "writes>=2")
 	}
+	v.Labels = append(v.Labels, c.flushLabels()...)
 	return v
 }
 
@@ -328,6 +395,21 @@ func partition(t *rapid.T, n, k int, label string) []int {
 	return append(out, rest)
 }
 
+// genFlushes draws the handler's flush schedule for the Writes of p.Parts: none (half of the exchanges),
+// or any subset of {before the first Write, after Write #i}.
+func genFlushes(t *rapid.T, p *Program) {
+	if rapid.Bool().Draw(t, "flushes") {
+		return
+	}
+	mask := rapid.IntRange(1, 1<<(len(p.Parts)+1)-1).Draw(t, "flushmask")
+	p.FlushBefore = mask&1 != 0
+	for i := range p.Parts {
+		if mask&(2<<i) != 0 {
+			p.FlushAfter = append(p.FlushAfter, i)
+		}
+	}
+}
+
 func genChainLayout(t *rapid.T) (before, after []string) {
 	var comp []string
 	switch rapid.IntRange(0, 5).Draw(t, "companions") {
@@ -389,7 +471,12 @@ func genExchange(t *rapid.T, ch Chain, terminal string) Case {
 	case s < 7:
 		p.Status = 200
 	default:
-		p.Status = rapid.SampledFrom([]int{201, 206, 404, 500, 204, 304}).Draw(t, "status-other")
+		// every status a backend can put on the wire (three digits): the registered ones with a body, the two
+		// bodiless ones, and unregistered codes up to 999 (net/http relays them; the statement says "with the
+		// backend's status" without naming a range)
+		p.Status = rapid.SampledFrom([]int{201, 206, 404, 500, 204, 304, 201, 206, 404, 500, 204, 304,
+			202, 203, 226, 300, 301, 302, 307, 308, 400, 401, 403, 410, 418, 429, 451, 501, 502, 503, 504, 511,
+			299, 499, 599, 600, 700, 999}).Draw(t, "status-other")
 	}
 	// body length relative to min_size
 	m := g.MinSize
@@ -421,6 +508,7 @@ func genExchange(t *rapid.T, ch Chain, terminal string) Case {
 	p.Parts = partition(t, n, 4, "resp")
 	if terminal == "stub" {
 		p.DeclareCL = !c.bodiless() && rapid.Bool().Draw(t, "declarecl")
+		genFlushes(t, p)
 	} else {
 		c.Framing = rapid.SampledFrom([]string{"cl", "cl", "chunked", "close"}).Draw(t, "framing")
 		if rapid.IntRange(0, 5).Draw(t, "interim") == 0 {
